@@ -42,6 +42,8 @@ static const char* names[] = {
     "futex: one waiter; cancel || cancel || wake_all",
     "two futexes: cancel of F's list head || F.wake_all, then new waiters on G reuse the slots: F.wake_all finds nobody, G.wake_all finds its own",
     "futex: a waiter arrives || the word changes and wake_all runs: the waiter must not stay suspended",
+    "futex, sequential: three waiters; wake_one; cancel the new list head; a new waiter; wake_one; wake_all: every waiter resumed exactly once",
+    "futex: cancel(W) || a new waiter V suspends on another futex (it may be given the slot W's cancellation releases)",
 };
 int harness_configs() { return sizeof(names) / sizeof(names[0]); }
 const char* harness_config_name(int c) { return names[c]; }
@@ -218,6 +220,34 @@ void harness_main(int cfg) {
       // either the waiter saw the new word and did not suspend, or it was queued before wake_all looked and was woken
       bbmc::check(w.resumed[0].load() == 1, "a wait was left suspended although the word had already changed and wake_all ran afterwards (lost wake-up)");
       bbmc::check(r == (w.have_token[0] ? 1 : 0), "wake_all's return value does not match the coroutines it resumed");
+      break;
+    }
+    case 12: {
+      auto f0 = inplace.execute(waiter, std::ref(w), std::ref((Executor&)inplace), 0, 7);
+      auto f1 = inplace.execute(waiter, std::ref(w), std::ref((Executor&)inplace), 1, 7);
+      auto f2 = inplace.execute(waiter, std::ref(w), std::ref((Executor&)inplace), 2, 7);
+      bbmc::check(w.futex.wake_one() == 1, "wake_one with three waiters did not resume one");
+      int first = w.resumed[0].load() + w.resumed[1].load() + w.resumed[2].load(); bbmc::check(first == 1, "wake_one did not resume exactly one coroutine");
+      // cancel every waiter that is still suspended and was queued after waiter 0 (one of them is the new list head)
+      int cancelled = 0; for (int i = 2; i >= 1; i--) if (w.resumed[i].load() == 0) { bbmc::check(w.token[i](), "cancelling a suspended waiter failed"); cancelled++; break; }
+      auto f3 = inplace.execute(waiter, std::ref(w), std::ref((Executor&)inplace), 3, 7);   // reuses the slot the cancellation gave back
+      int a = w.futex.wake_one(); bbmc::check(a == 1, "wake_one returned 0 although coroutines are suspended on the futex");
+      int b = w.futex.wake_all();
+      int total = 0; for (int i = 0; i < 4; i++) total += w.resumed[i].load();
+      bbmc::check(first + cancelled + a + b == 4 && total == 4, "waiters were lost from (or duplicated in) the futex's list: not every suspended coroutine was resumed exactly once");
+      check_once(w, 4);
+      break;
+    }
+    case 13: {
+      w.other.value() = 7;
+      auto f0 = inplace.execute(waiter, std::ref(w), std::ref((Executor&)inplace), 0, 7);
+      bool cancelled = false; babylon::Future<void> f1;
+      std::thread a([&] { cancelled = w.token[0](); }), b([&] { f1 = inplace.execute(waiter_on, std::ref(w.other), std::ref(w), std::ref((Executor&)inplace), 1, 7); });
+      a.join(); b.join();
+      bbmc::check(cancelled && w.resumed[0].load() == 1, "the only cancellation of a suspended wait did not resume it (exactly once)");
+      bbmc::check(w.resumed[1].load() == 0, "a coroutine that nobody woke or cancelled was resumed");
+      bbmc::check(w.other.wake_all() == 1, "wake_all did not find the coroutine waiting on its futex");
+      check_once(w, 2);
       break;
     }
     case 9: {
